@@ -689,6 +689,11 @@ func ToEntry(n Node) (e *Entry) {
 		if ms.converting == nil {
 			ms.converting = map[Node]bool{}
 		}
+		if len(ms.converting) >= maxStatementDepth {
+			// The expansion recurses once per grouping that uses the
+			// next; like the nesting of statements it is limited.
+			return newError(n, "grouping %s: uses statements nested more than %d deep", s.Name, maxStatementDepth)
+		}
 		ms.converting[g] = true
 		defer delete(ms.converting, g)
 		// We need to return a duplicate so we resolve properly
